@@ -4,6 +4,7 @@ import RV.C03.Choice
 import RV.C03.NTLine
 import RV.C03.NTDoc
 import RV.C03.RefSplit
+import RV.C03.XmlTree
 /-
   C03 — executable model (re-exports the layers; see Codec.lean, Struct.lean).
 -/
